@@ -177,26 +177,29 @@ type excDesc struct {
 }
 
 var (
-	excRange    = &excDesc{cls: "R:RangeError: boom", errText: "RangeError: boom"}
-	excPrim     = &excDesc{cls: "number:7", errText: "7"}
-	excOverflow = &excDesc{cls: "R:RangeError: Maximum call stack size exceeded", errText: "RangeError: Maximum call stack size exceeded"}
-	excHostType = &excDesc{cls: "T:TypeError: boom", errText: "TypeError: boom"}
-	excHostVal  = &excDesc{cls: "number:42", errText: "42"}
-	excHostStr  = &excDesc{cls: "string:boom", errText: "boom"}
+	excRange = &excDesc{cls: "R:RangeError: boom", errText: "RangeError: boom"}
+	excPrim  = &excDesc{cls: "number:7", errText: "7"}
+	// a direct eval whose source does not parse: the abnormal exit happens before any eval code runs
+	excEvalParse = &excDesc{cls: "E:SyntaxError: (anonymous): Line 1:2 Unexpected end of input (and 1 more errors)", errText: "SyntaxError: (anonymous): Line 1:2 Unexpected end of input (and 1 more errors)"}
+	excOverflow  = &excDesc{cls: "R:RangeError: Maximum call stack size exceeded", errText: "RangeError: Maximum call stack size exceeded"}
+	excHostType  = &excDesc{cls: "T:TypeError: boom", errText: "TypeError: boom"}
+	excHostVal   = &excDesc{cls: "number:42", errText: "42"}
+	excHostStr   = &excDesc{cls: "string:boom", errText: "boom"}
 )
 
 const recLimit = 24
 
 var (
-	bodyAsg    = body{name: "asg", src: `g1 = 1; tick(1); g2 = g1 + 1; tick(2); o.p = 3; tick(3);`, ticks: 3}
-	bodyLoop   = body{name: "loop", src: `s0 = 0; for (i0 = 0; i0 < 3; i0++) { s0 += i0; tick(i0); }`, ticks: 3}
-	bodyForBlk = body{name: "for_block", src: `for(;;){}`, nonterm: true}
-	bodyForEmp = body{name: "for_empty", src: `for(;;);`, nonterm: true}
-	bodyWhile  = body{name: "while", src: `while(true){}`, nonterm: true}
-	bodyDo     = body{name: "do", src: `do{}while(true);`, nonterm: true}
-	bodyRec    = body{name: "mutrec", src: `ra = function(){ rb(); }; rb = function(){ ra(); }; ra();`, limit: recLimit, throws: excOverflow}
-	bodyThrowE = body{name: "throw_error", src: `g1 = 1; tick(1); throw new RangeError("boom"); g2 = 2;`, ticks: 1, throws: excRange}
-	bodyThrowP = body{name: "throw_prim", src: `g1 = 1; tick(1); throw 7; g2 = 2;`, ticks: 1, throws: excPrim}
+	bodyAsg     = body{name: "asg", src: `g1 = 1; tick(1); g2 = g1 + 1; tick(2); o.p = 3; tick(3);`, ticks: 3}
+	bodyLoop    = body{name: "loop", src: `s0 = 0; for (i0 = 0; i0 < 3; i0++) { s0 += i0; tick(i0); }`, ticks: 3}
+	bodyForBlk  = body{name: "for_block", src: `for(;;){}`, nonterm: true}
+	bodyForEmp  = body{name: "for_empty", src: `for(;;);`, nonterm: true}
+	bodyWhile   = body{name: "while", src: `while(true){}`, nonterm: true}
+	bodyDo      = body{name: "do", src: `do{}while(true);`, nonterm: true}
+	bodyRec     = body{name: "mutrec", src: `ra = function(){ rb(); }; rb = function(){ ra(); }; ra();`, limit: recLimit, throws: excOverflow}
+	bodyThrowE  = body{name: "throw_error", src: `g1 = 1; tick(1); throw new RangeError("boom"); g2 = 2;`, ticks: 1, throws: excRange}
+	bodyEvalBad = body{name: "eval_parse_error", src: `g1 = 1; tick(1); eval("("); g2 = 2;`, ticks: 1, throws: excEvalParse}
+	bodyThrowP  = body{name: "throw_prim", src: `g1 = 1; tick(1); throw 7; g2 = 2;`, ticks: 1, throws: excPrim}
 )
 
 var interruptBodies = []body{bodyAsg, bodyLoop, bodyForBlk, bodyForEmp, bodyWhile, bodyDo, bodyRec}
@@ -416,7 +419,7 @@ func runModelWith(p *prog, inj bodyInj, conv *excDesc) modelOut {
 				return *f
 			}
 			return flow{}
-		case "throw_error", "throw_prim":
+		case "throw_error", "throw_prim", "eval_parse_error":
 			set("g1", one)
 			if f := tick(1, "1"); f != nil {
 				return *f
